@@ -13,6 +13,10 @@
 //!     qfull    queue of size 1: request 1 in flight, request 2 queued, request 3 rejected; then destroy
 //!     badparam <extra> = null | zero | overflow | limit | nullitems | toomany | empty
 //!     states   client state listener until Connected, then destroy
+//!     reuse    op = wmc | wmr, <extra> = <k> or <k>+a: ONE rodbus_bit_list / rodbus_register_list object with n values is
+//!              passed to k successive write-multiple calls (each awaited); with +a one more value is added to the object
+//!              between two calls. The Rust API twin issues the same k calls with freshly built vectors.
+//!              output: ffi:<rc>/<events>;... rust:<result>;... wire:<request ADUs the peer got, joined by ','>/<.. Rust API>
 //! output: ffi:<return code>/<callback events joined by +>[;...] rust:<result> [wire:<first request ADU the peer got from the C-ABI client>/<.. from the Rust API client>  (req only)]
 //!   events: complete[:i=v,...] | failure:<ffi RequestError name>
 use super::p5_common::*;
@@ -30,9 +34,11 @@ struct Peer {
     seen: Arc<AtomicUsize>,
     /// the first request ADU this peer received, as sent on the wire
     first: Arc<Mutex<Option<Vec<u8>>>>,
+    /// every request ADU, in order of arrival
+    all: Arc<Mutex<Vec<Vec<u8>>>>,
 }
 
-async fn peer_conn(mut s: tokio::net::TcpStream, seen: Arc<AtomicUsize>, first: Arc<Mutex<Option<Vec<u8>>>>) {
+async fn peer_conn(mut s: tokio::net::TcpStream, seen: Arc<AtomicUsize>, first: Arc<Mutex<Option<Vec<u8>>>>, all: Arc<Mutex<Vec<Vec<u8>>>>) {
     use tokio::io::{AsyncReadExt, AsyncWriteExt};
     loop {
         let mut h = [0u8; 7];
@@ -48,10 +54,11 @@ async fn peer_conn(mut s: tokio::net::TcpStream, seen: Arc<AtomicUsize>, first: 
             return;
         }
         {
+            let mut adu = h.to_vec();
+            adu.extend(&pdu);
+            all.lock().unwrap().push(adu.clone());
             let mut f = first.lock().unwrap();
             if f.is_none() {
-                let mut adu = h.to_vec();
-                adu.extend(&pdu);
                 *f = Some(adu);
             }
         }
@@ -119,12 +126,14 @@ fn start_peer(rt: &tokio::runtime::Runtime) -> Peer {
     let seen2 = seen.clone();
     let first = Arc::new(Mutex::new(None));
     let first2 = first.clone();
+    let all = Arc::new(Mutex::new(Vec::new()));
+    let all2 = all.clone();
     rt.spawn(async move {
         while let Ok((s, _)) = listener.accept().await {
-            tokio::spawn(peer_conn(s, seen2.clone(), first2.clone()));
+            tokio::spawn(peer_conn(s, seen2.clone(), first2.clone(), all2.clone()));
         }
     });
-    Peer { port, seen, first }
+    Peer { port, seen, first, all }
 }
 
 /// the unit id used for a request: varies with the case so that a C ABI that dropped or altered it would
@@ -541,6 +550,93 @@ fn scenario(rt: &tokio::runtime::Runtime, ffi_rt: &FfiRuntime, line: &str) -> St
             let e1 = slot_events(s1, Duration::from_secs(10));
             let e2 = slot_events(s2, Duration::from_secs(10));
             format!("ffi:{rc1}/{e1};{rc2}/{e2};{rc3}/{e3};pending-before-destroy={pending} rust:n/a")
+        }
+        "reuse" => {
+            let (k, add) = match extra.split_once('+') {
+                Some((k, _)) => (k.parse::<usize>().unwrap(), true),
+                None => (extra.parse::<usize>().unwrap(), false),
+            };
+            let bit = |i: u16| i % 2 == 0;
+            let reg = |i: u16| i.wrapping_mul(257);
+            let unit = unit_of(start, n);
+            let peer = start_peer(rt);
+            let c = ffi_channel(ffi_rt, peer.port, 4);
+            if !ffi_connected(&c) {
+                return "FAIL:ffi never connected".into();
+            }
+            let mut f_out = Vec::new();
+            unsafe {
+                let bl = ffi::rodbus_bit_list_create(n as u32);
+                let rl = ffi::rodbus_register_list_create(n as u32);
+                for i in 0..n {
+                    ffi::rodbus_bit_list_add(bl, bit(i));
+                    ffi::rodbus_register_list_add(rl, reg(i));
+                }
+                for j in 0..k {
+                    let (slot, ctx) = leak_ctx(Slot::default());
+                    let param = ffi::RequestParam { unit_id: unit, timeout: 5000 };
+                    let wcb = ffi::WriteCallback {
+                        on_complete: Some(write_complete),
+                        on_failure: Some(on_failure),
+                        on_destroy: Some(on_destroy),
+                        ctx,
+                    };
+                    let rc = if op == "wmc" {
+                        ffi::rodbus_client_channel_write_multiple_coils(c.ch, param, start, bl, wcb)
+                    } else {
+                        ffi::rodbus_client_channel_write_multiple_registers(c.ch, param, start, rl, wcb)
+                    };
+                    let rc = param_error_name(rc);
+                    let ev = if rc == "Ok" {
+                        slot_events(slot, Duration::from_secs(10))
+                    } else {
+                        std::thread::sleep(Duration::from_millis(100));
+                        slot_events(slot, Duration::from_millis(1))
+                    };
+                    f_out.push(format!("{rc}/{ev}"));
+                    if add {
+                        ffi::rodbus_bit_list_add(bl, bit(n + j as u16));
+                        ffi::rodbus_register_list_add(rl, reg(n + j as u16));
+                    }
+                }
+                ffi::rodbus_bit_list_destroy(bl);
+                ffi::rodbus_register_list_destroy(rl);
+                ffi::rodbus_client_channel_destroy(c.ch);
+            }
+            let peer2 = start_peer(rt);
+            let (ch, states) = rust_channel(rt, peer2.port, 4);
+            wait_until(Duration::from_secs(10), || states.lock().unwrap().iter().any(|s| s == "Connected"));
+            let mut r_out = Vec::new();
+            for j in 0..k {
+                let m = if add { n + j as u16 } else { n };
+                let param = RequestParam::new(UnitId::new(unit), Duration::from_millis(5000));
+                let r = rt.block_on(async {
+                    if op == "wmc" {
+                        match WriteMultiple::from(start, (0..m).map(bit).collect()) {
+                            Ok(w) => ch.write_multiple_coils(param, w).await.map(|_| ()).map_err(|e| err_name(&e)),
+                            Err(e) => Err(format!("InvalidRequest:{e:?}")),
+                        }
+                    } else {
+                        match WriteMultiple::from(start, (0..m).map(reg).collect()) {
+                            Ok(w) => ch.write_multiple_registers(param, w).await.map(|_| ()).map_err(|e| err_name(&e)),
+                            Err(e) => Err(format!("InvalidRequest:{e:?}")),
+                        }
+                    }
+                });
+                r_out.push(match r {
+                    Ok(()) => "OK".to_string(),
+                    Err(e) => e,
+                });
+            }
+            let w = |p: &Peer| {
+                let a = p.all.lock().unwrap();
+                if a.is_empty() {
+                    "-".to_string()
+                } else {
+                    a.iter().map(|b| crate::util::hex(b)).collect::<Vec<_>>().join(",")
+                }
+            };
+            format!("ffi:{} rust:{} wire:{}/{}", f_out.join(";"), r_out.join(";"), w(&peer), w(&peer2))
         }
         "badparam" => {
             let peer = start_peer(rt);
